@@ -48,6 +48,7 @@ TERMINATORS = (ast.Return, ast.Raise, ast.Continue, ast.Break)
 _NEG = {ast.Eq: ast.NotEq, ast.NotEq: ast.Eq, ast.Is: ast.IsNot, ast.IsNot: ast.Is, ast.In: ast.NotIn, ast.NotIn: ast.In}
 _NEGATIVE_OPS = (ast.NotEq, ast.IsNot, ast.NotIn)
 PURE_CALLS = {"type", "len", "slice", "isinstance"}
+CONTEXT_DECORATORS = {"torch.no_grad()", "torch.enable_grad()", "torch.inference_mode()"}  # decorators that only wrap the call in a context
 
 
 def load_known() -> dict | None:
@@ -760,23 +761,32 @@ class Helper:
 
     @property
     def inlinable(self) -> bool:
+        """Inlinable at *some* kind of site (see `returns_in_tail_position` / `has_nested_defs` for the per-site conditions)."""
         n = self.node
-        if self.other_decorators or isinstance(n, ast.AsyncFunctionDef) or n.args.vararg or n.args.kwarg:
+        if isinstance(n, ast.AsyncFunctionDef) or n.args.vararg or n.args.kwarg:
+            return False
+        if any(d not in CONTEXT_DECORATORS for d in self.other_decorators):
             return False
         for x in ast.walk(n):
             if isinstance(x, (ast.Yield, ast.YieldFrom, ast.Global, ast.Nonlocal, ast.Await)):
                 return False
-            if x is not n and isinstance(x, (ast.FunctionDef, ast.AsyncFunctionDef, ast.ClassDef)):
+            if x is not n and isinstance(x, ast.ClassDef):
                 return False
             if isinstance(x, ast.Call) and isinstance(x.func, ast.Name) and x.func.id in ("super", "locals", "vars"):
                 return False
             if isinstance(x, ast.Call) and ((isinstance(x.func, ast.Name) and x.func.id == n.name) or (isinstance(x.func, ast.Attribute) and x.func.attr == n.name)):
                 return False  # recursion
+        return True
+
+    @property
+    def returns_in_tail_position(self) -> bool:
         rets = _returns(self.body)
         tail = _tail_returns(self.body)
-        if any(r not in tail for r in rets):
-            return False
-        return True
+        return not any(r not in tail for r in rets)
+
+    @property
+    def has_nested_defs(self) -> bool:
+        return any(x is not self.node and isinstance(x, (ast.FunctionDef, ast.AsyncFunctionDef, ast.Lambda)) for x in ast.walk(self.node))
 
     @property
     def has_value(self) -> bool:
@@ -827,6 +837,11 @@ def _bind_args(h: Helper, call: ast.Call, receiver: ast.expr | None) -> dict[str
                 return None
             out[p] = defaults[p]
     return out
+
+
+def _identity_binding(h: Helper, call: ast.Call, receiver: ast.expr | None) -> bool:
+    b = _bind_args(h, call, receiver)
+    return b is not None and all(isinstance(v, ast.Name) and v.id == p for p, v in b.items())
 
 
 def _instantiate(h: Helper, call: ast.Call, receiver: ast.expr | None, caller: ast.AST, uid: int, target_name: str | None = None, allow_paths: bool = False) -> tuple[list[ast.stmt], list[ast.stmt]] | None:
@@ -1027,10 +1042,19 @@ class _Inliner:
             # only when the helper never reads that name before binding it itself (it is not one of its parameters)
             if tname in _params(h.node):
                 tname = None
+        # a `return helper(...)` site keeps the helper's returns as returns wherever they are; any other site turns them
+        # into assignments, which is exact only for returns in tail position
+        if not (isinstance(stmt, ast.Return) and stmt.value is call) and not h.returns_in_tail_position:
+            return None
+        # a context decorator of the helper (torch.no_grad()) must already be in force in the caller
+        if h.other_decorators and not set(h.other_decorators) <= {ast.unparse(d) for d in getattr(fn, "decorator_list", [])}:
+            return None
         inst = _instantiate(h, call, receiver, fn, self.uid, tname)
         if inst is None:
             return None
         prelude, body = inst
+        if h.has_nested_defs and (prelude or not _identity_binding(h, call, receiver)):
+            return None  # closures inside the helper capture its variables: only a name-for-name call is inlined
         direct = isinstance(stmt, (ast.Assign, ast.AnnAssign, ast.Return, ast.Expr, ast.AugAssign)) and stmt.value is call
         if h.is_expr and not prelude:
             expr = body[0].value
